@@ -123,6 +123,9 @@ pub fn file_name_strategy() -> impl Strategy<Value = String> {
         10 => (stem_strategy(), prop::sample::select(vec!["dat", "rs", "md", "x", "yaml", "log", "htmlx", "tx", "jsonx", "wasm"])).prop_map(|(s, e)| format!("{}.{}", s, e)),
         3 => (stem_strategy(), prop::sample::select(vec!["TXT", "Html", "PNG", "Js"])).prop_map(|(s, e)| format!("{}.{}", s, e)),
         12 => "[A-Za-z0-9_]{1,10}",
+        // names that extend the name of a special route or of the index page, and the index page's name in other letter case: each is an ordinary file
+        4 => prop::sample::select(vec!["script.js.map", "script.json", "style.css.gz", "style.cssx", "favicon.svg.png", "favicon.svgz", "index.html.bak", "index.htmlx", "index.htm", "404.html.bak", "script.js", "style.css", "favicon.svg"]).prop_map(|s| s.to_string()),
+        3 => prop::sample::select(vec!["Index.html", "INDEX.HTML", "index.HTML", "Index.Html"]).prop_map(|s| s.to_string()),
     ]
 }
 
